@@ -16,6 +16,7 @@ fn main() {
     let code = run::with_big_stack(move || match cmd.as_str() {
         "compile" => drivers::misc::compile(&rest),
         "project" => drivers::misc::project(&rest),
+        "c03" => drivers::c03::drive(&rest),
         "c05" => drivers::c05::drive(&rest),
         "c06" => drivers::c06::drive(&rest),
         "c14" => drivers::c14::drive(&rest),
